@@ -16,6 +16,15 @@ HEADS = [
     ("h0", "h"),
 ]
 
+# heads that use body variables in non-binding positions (conditions of a disjunction, bounds): smaller body family
+HEADS2 = [
+    ("disj_cmp", "h(X) : t(X), X < Z ; g(Y)"),
+    ("disj_neg", "h(X) : not s(X,Z) ; g(W)"),
+    ("choice_ub", "1 { h(X) : t(X) } Z"),
+    ("choice_lb", "Z { h(X) : t(X) }"),
+    ("hagg_ub", "0 #sum { 1,X : h(X) : t(X) } W"),
+]
+
 MENU = [
     "q(X,Y,Z)",
     "q(X,Y,_)",
@@ -84,4 +93,11 @@ def jobs(tier: str):
                 yield job("C16", prog, universe, [config(["projection"], IN0, [], oracle)], max_facts=max_facts,
                           meta={"head": hname, "lits": list(lits)})
 
+    def gen2():
+        for hname, head in HEADS2:
+            for lits in list(subsets(MENU[:9], 3, 3)) + list(subsets(core, 4, 4)):
+                yield job("C16/heads2", f"{head} :- {'; '.join(lits)}.", universe, [config(["projection"], IN0, [], oracle)],
+                          max_facts=max_facts, meta={"head": hname, "lits": list(lits)})
+
     yield from dedupe(gen())
+    yield from dedupe(gen2())
